@@ -50,6 +50,30 @@ def TI():
     return _ti
 
 
+_h = 0.5
+#: tableaux from the literature, written down here independently of time_integration.py
+LITERATURE = [
+    ('euler', ([[1.0]], [[0.0, 1.0]], [1.0, 0.0], [0.0, 1.0])),
+    ('cn_rk2', ([[1.0], [_h, _h]], [[_h, _h], [_h, 0.0, _h]], [_h, _h, 0.0], [_h, 0.0, _h])),
+    # Whitaker & Kar (2013), SIL3
+    ('sil3', ([[1 / 3], [1 / 6, 1 / 2], [1 / 2, -1 / 2, 1.0]],
+              [[1 / 6, 1 / 6], [1 / 3, 0.0, 1 / 3], [3 / 8, 0.0, 3 / 8, 1 / 4]],
+              [1 / 2, -1 / 2, 1.0, 0.0], [3 / 8, 0.0, 3 / 8, 1 / 4])),
+    # Ascher, Ruuth & Spiteri (1997), ARS(2,2,2) with gamma = 1 - 1/sqrt(2), delta = 1 - 1/(2 gamma)
+    ('ars222', (lambda g_, d_: ([[g_], [d_, 1 - d_]], [[0.0, g_], [0.0, 1 - g_, g_]], [d_, 1 - d_, 0.0], [0.0, 1 - g_, g_]))(
+        1 - 0.5 ** 0.5, 1 - 1 / (2 * (1 - 0.5 ** 0.5)))),
+]
+#: Williamson (1980) RK3 and Carpenter & Kennedy (1994) RK4(3)5[2N] as (c, A, B) = (alphas, betas, gammas)
+LIT_LOWSTORAGE = {
+    3: ([0.0, 1 / 3, 3 / 4, 1.0], [0.0, -5 / 9, -153 / 128], [1 / 3, 15 / 16, 8 / 15]),
+    4: ([0.0, 1432997174477 / 9575080441755, 2526269341429 / 6820363962896, 2006345519317 / 3224310063776,
+         2802321613138 / 2924317926251, 1.0],
+        [0.0, -567301805773 / 1357537059087, -2404267990393 / 2016746695238, -3550918686646 / 2091501179385,
+         -1275806237668 / 842570457699],
+        [1432997174477 / 9575080441755, 5161836677717 / 13612068292357, 1720146321549 / 2090206949498,
+         3134564353537 / 4481467310338, 2277821191437 / 14882151754819]),
+}
+
 SCHEMES = {0: 'backward_forward_euler', 1: 'semi_implicit_leapfrog', 2: 'crank_nicolson_rk2',
            3: 'crank_nicolson_rk3', 4: 'crank_nicolson_rk4', 5: 'imex_rk_sil3'}
 
@@ -167,6 +191,123 @@ def generate(ctx):
             A, B, p, u = rand_problem(rng, d, nonlinear=(scheme == 3))
             yield 'ls_vs_ark', {'scheme': scheme, 'd': d, 'A': A, 'B': B, 'p': p, 'u': u,
                                 'dt': float(rng.choice([2.0 ** -7, 0.25, 1.0]))}
+    yield from generate_review(ctx)
+
+
+def skew_problem(rng, d, nonlinear=True):
+    """B = skew + optional small symmetric part is such that I - eta B is invertible
+    and well conditioned for BOTH signs of eta (negative steps, non-monotone alphas)."""
+    A, B, p, u = rand_problem(rng, d, nonlinear)
+    K = rng.integers(-4, 5, size=(d, d)).astype(np.float64)
+    B = (K - K.T) / 4
+    return A, B.tolist(), p, u
+
+
+FORMS = ['int_state', 'scalar_state', 'zero_d_state', 'readonly_strided', 'batch', 'pytree', 'np_dt', 'int_dt',
+         'zero_d_dt', 'jnp_dt', 'zero_dt', 'time_reversed', 'subclass', 'compose', 'rest_state', 'F_equals_G']
+
+
+def generate_review(ctx):
+    """Cases added by the robustness self-review (options, forms, ranks, purity,
+    boundary values, structured data)."""
+    rng = ctx.rng; quick = ctx.tier == 'quick'
+    # negative step sizes (all schemes), dt = 0
+    for scheme in range(6):
+        for dt in ([-2.0 ** -7, -1.0] if quick else [-2.0 ** -10, -2.0 ** -7, -0.5, -1.0, -8.0]):
+            d = int(rng.integers(1, 3)) if scheme == 4 else int(rng.integers(1, 4))
+            A, B, p, u = skew_problem(rng, d, nonlinear=(scheme != 4 or d == 1))
+            a = {'scheme': scheme, 'd': d, 'A': A, 'B': B, 'p': p, 'u': u, 'dt': dt}
+            if scheme == 1:
+                a['u'] = u + (rng.integers(-8, 9, size=d).astype(np.float64) / 8).tolist()
+                a['alpha'] = [None, 0.75, 0.25, 1.5][int(rng.integers(0, 4))]
+            ctx.count('negative dt')
+            yield 'step', a
+    # leapfrog with alpha outside [1/2, 1] as well (correspondence only)
+    for al in (0.0, 0.25, 0.375, 1.25):
+        A, B, p, u = rand_problem(rng, 2)
+        yield 'step', {'scheme': 1, 'd': 2, 'A': A, 'B': B, 'p': p, 'dt': 0.25, 'alpha': al,
+                       'u': u + (rng.integers(-8, 9, size=2).astype(np.float64) / 8).tolist()}
+    # low-storage lists with non-monotone alphas (negative substeps), also negative dt
+    for _ in range(8 if quick else 40):
+        n = int(rng.integers(1, 5)); d = int(rng.integers(1, 4))
+        al = rng.integers(-6, 9, size=n + 1).astype(np.float64) / 8
+        be = rng.integers(-8, 9, size=n).astype(np.float64) / 8      # beta[0] != 0 too: multiplies h = 0
+        ga = rng.integers(-8, 9, size=n).astype(np.float64) / 8
+        A, B, p, u = skew_problem(rng, d)
+        ctx.count('ls_generic: non-monotone alphas')
+        yield 'ls_generic', {'d': d, 'A': A, 'B': B, 'p': p, 'u': u, 'dt': float(rng.choice([-0.5, 2.0 ** -7, 0.25, 1.0])),
+                             'alphas': al.tolist(), 'betas': be.tolist(), 'gammas': ga.tolist(),
+                             'form': ['list', 'tuple', 'ndarray'][int(rng.integers(0, 3))]}
+    # structured tableaux: one stage; stiffly accurate in the implicit half only; last explicit
+    # stage used but last implicit stage unused and vice versa; -0.0 coefficients; tuple / array rows
+    for k in range(10 if quick else 40):
+        kind = ['one_stage', 'stiff_im_only', 'last_f_only', 'last_g_only', 'neg_zero', 'literature'][k % 6]
+        s_ = 1 if kind == 'one_stage' else int(rng.integers(2, 5))
+        a_ex, a_im, b_ex, b_im = rand_tableau(rng, s_)
+        if kind == 'stiff_im_only':
+            b_im = list(a_im[-1]); b_ex = [float(rng.integers(1, 9)) / 8 for _ in range(s_)]
+        if kind == 'last_f_only': b_ex[-1] = 0.5; b_im[-1] = 0.0
+        if kind == 'last_g_only': b_ex[-1] = 0.0; b_im[-1] = 0.5
+        if kind == 'neg_zero':
+            a_ex = [[-0.0 if x == 0.0 else x for x in r_] for r_ in a_ex]; b_im = [-0.0 if x == 0.0 else x for x in b_im]
+        if kind == 'literature':
+            a_ex, a_im, b_ex, b_im = LITERATURE[k // 6 % len(LITERATURE)][1]
+        d = int(rng.integers(1, 4))
+        A, B, p, u = rand_problem(rng, d)
+        ctx.count('imex_generic:' + kind)
+        yield 'imex_generic', {'d': d, 'A': A, 'B': B, 'p': p, 'u': u, 'dt': float(rng.choice([2.0 ** -7, 0.25, 1.0, -0.25] if kind != 'literature' else [0.25])),
+                               'a_ex': a_ex, 'a_im': a_im, 'b_ex': b_ex, 'b_im': b_im, 'kind': kind,
+                               'form': ['list', 'tuple', 'ndarray'][k % 3]}
+    for name, tab in LITERATURE:       # every published tableau, every run
+        A, B, p, u = rand_problem(rng, 2)
+        ctx.count('imex_generic:literature')
+        yield 'imex_generic', {'d': 2, 'A': A, 'B': B, 'p': p, 'u': u, 'dt': 0.25, 'a_ex': tab[0], 'a_im': tab[1],
+                               'b_ex': tab[2], 'b_im': tab[3], 'kind': 'literature:' + name, 'form': 'list'}
+    # forms of state / step size / equation object
+    for form in FORMS:
+        for scheme in (range(6) if not quick else [int(rng.integers(0, 6)), int(rng.integers(0, 6)), 1 if form in ('pytree', 'batch') else int(rng.integers(0, 6))]):
+            d = 1 if form in ('scalar_state', 'zero_d_state') else 2
+            A, B, p, u = skew_problem(rng, d, nonlinear=(scheme != 4))
+            if form == 'int_state': u = [float(v) for v in rng.integers(-3, 4, size=d)]
+            if form == 'rest_state': u = [0.0] * d
+            if form == 'F_equals_G': A = B; p = [0.0] * d
+            dt = float(rng.choice([1.0, 2.0, 8.0])) if form == 'int_dt' else (0.0 if form == 'zero_dt' else float(rng.choice([2.0 ** -7, 0.25, 1.0])))
+            nb = 3 if form == 'batch' else 1
+            us = [(rng.integers(-8, 9, size=d * (2 if scheme == 1 else 1)).astype(np.float64) / 8).tolist() for _ in range(nb)]
+            if form in ('int_state', 'rest_state'):
+                us = [(u + u) if scheme == 1 else u]
+            ctx.count('form:' + form)
+            yield 'forms', {'form': form, 'scheme': scheme, 'd': d, 'A': A, 'B': B, 'p': p, 'us': us, 'dt': dt,
+                            'alpha': [None, 0.75][int(rng.integers(0, 2))] if scheme == 1 else None}
+    # purity / state across calls; jit
+    for scheme in range(6):
+        A, B, p, u = skew_problem(rng, 2, nonlinear=True)
+        v = (rng.integers(-8, 9, size=2).astype(np.float64) / 8).tolist()
+        yield 'purity', {'scheme': scheme, 'A': A, 'B': B, 'p': p, 'u': u, 'v': v, 'dt': 0.25, 'dt2': 0.5}
+    for _ in range(2 if quick else 8):      # registers that could carry state: beta[0] != 0, generic tableau
+        A, B, p, u = skew_problem(rng, 2, nonlinear=True)
+        v = (rng.integers(-8, 9, size=2).astype(np.float64) / 8).tolist()
+        n = int(rng.integers(1, 4))
+        ex = {'alphas': (np.arange(n + 1) / n).tolist(), 'betas': (rng.integers(1, 9, size=n) / 8).tolist(),
+              'gammas': (rng.integers(1, 9, size=n) / 8).tolist()}
+        yield 'purity', {'scheme': 6, 'A': A, 'B': B, 'p': p, 'u': u, 'v': v, 'dt': 0.25, 'dt2': 0.5, 'extra': ex}
+        a_ex, a_im, b_ex, b_im = rand_tableau(rng, int(rng.integers(2, 5)))
+        yield 'purity', {'scheme': 7, 'A': A, 'B': B, 'p': p, 'u': u, 'v': v, 'dt': 0.25, 'dt2': 0.5,
+                         'extra': {'a_ex': a_ex, 'a_im': a_im, 'b_ex': b_ex, 'b_im': b_im}}
+    for scheme in (range(6) if not quick else (1, 3, 5)):
+        A, B, p, u = skew_problem(rng, 2, nonlinear=True)
+        yield 'jit', {'scheme': scheme, 'A': A, 'B': B, 'p': p, 'u': u, 'dt': 0.25}
+    # directly coded schemes = imex_runge_kutta on their Butcher forms (implementation vs implementation)
+    for r in range(2 if quick else 6):
+        for name in ('euler', 'cn_rk2', 'sil3'):
+            d = int(rng.integers(1, 4))
+            A, B, p, u = rand_problem(rng, d)
+            yield 'direct_vs_tableau', {'name': name, 'd': d, 'A': A, 'B': B, 'p': p, 'u': u,
+                                        'dt': float(rng.choice([2.0 ** -7, 0.25, 1.0]))}
+    # leapfrog with alpha != 1/2 is only first-order consistent (local error O(h^2)) - and not better
+    for r in range(1 if quick else 4):
+        c = rng.integers(-8, 9, size=12).astype(np.float64) / 8
+        yield 'order', {'scheme': 1, 'mode': 'general', 'c': c.tolist(), 'alpha': 0.75}
 
 
 # ---------------------------------------------------------------------------
@@ -223,11 +364,24 @@ def impl_step(scheme, bench, dt, u, alpha=None, extra=None):
     if scheme == 4: return np.asarray(ti.crank_nicolson_rk4(eq, dt)(np.asarray(u)))
     if scheme == 5: return np.asarray(ti.imex_rk_sil3(eq, dt)(np.asarray(u)))
     if scheme == 6:
-        return np.asarray(ti.low_storage_runge_kutta_crank_nicolson(extra['alphas'], extra['betas'], extra['gammas'], eq, dt)(np.asarray(u)))
+        cv = _container(extra.get('form', 'list'))
+        if extra.get('form') == 'tuple':   # positional arguments as well
+            return np.asarray(ti.low_storage_runge_kutta_crank_nicolson(cv(extra['alphas']), cv(extra['betas']), cv(extra['gammas']), eq, dt)(np.asarray(u)))
+        return np.asarray(ti.low_storage_runge_kutta_crank_nicolson(alphas=cv(extra['alphas']), betas=cv(extra['betas']),
+                                                                    gammas=cv(extra['gammas']), equation=eq, time_step=dt)(np.asarray(u)))
     if scheme == 7:
-        tab = ti.ImExButcherTableau(a_ex=extra['a_ex'], a_im=extra['a_im'], b_ex=extra['b_ex'], b_im=extra['b_im'])
+        cv = _container(extra.get('form', 'list'))
+        rows = lambda m: (tuple if extra.get('form') == 'tuple' else list)(cv(r) for r in m)
+        if extra.get('form') == 'tuple':
+            tab = ti.ImExButcherTableau(rows(extra['a_ex']), rows(extra['a_im']), cv(extra['b_ex']), cv(extra['b_im']))
+        else:
+            tab = ti.ImExButcherTableau(a_ex=rows(extra['a_ex']), a_im=rows(extra['a_im']), b_ex=cv(extra['b_ex']), b_im=cv(extra['b_im']))
         return np.asarray(ti.imex_runge_kutta(tab, eq, dt)(np.asarray(u)))
     raise ValueError(scheme)
+
+
+def _container(form):
+    return {'list': list, 'tuple': tuple, 'ndarray': lambda l: np.asarray(l, dtype=np.float64)}[form]
 
 
 def flatten(m): return [x for r in m for x in r]
@@ -384,6 +538,7 @@ def r_order(ctx, a):
     sc, mode = a['scheme'], a['mode']
     A, B, p, u = _order_problem(a['c'], mode)
     want = DESIGN_LOCAL_ORDER[(sc, mode)]
+    if a.get('alpha') is not None and a['alpha'] != 0.5: want = 2     # off-centred: first-order consistent only
     h0 = {2: 2.0 ** -8, 3: 2.0 ** -6, 4: 2.0 ** -4, 5: 2.0 ** -3}[want]
     hs = [h0, h0 / 2, h0 / 4]
     errs = []
@@ -393,7 +548,7 @@ def r_order(ctx, a):
         b = Bench(A, B, p, h)
         if sc == 1:   # exact snapshots at t-h (integrating backwards) and t
             prev = solve_ivp(rhs, (0.0, -h), u, method='DOP853', rtol=1e-13, atol=1e-15).y[:, -1]
-            out = impl_step(1, b, h, np.concatenate([prev, u]))[2:]
+            out = impl_step(1, b, h, np.concatenate([prev, u]), alpha=a.get('alpha'))[2:]
         else:
             out = impl_step(sc, b, h, u)
         errs.append(float(np.max(np.abs(out - _exact_flow(A, B, p, u, h)))))
@@ -426,15 +581,13 @@ def r_reduction(ctx, a):
     elif sc == 2:
         k1 = Fx(u); ref = u + dt * 0.5 * (k1 + Fx(u + dt * k1))
     elif sc in (3, 4):
-        c = _coefs(ctx, sc); n = (len(c) - 1) // 3
-        be, ga = c[n + 1:2 * n + 1], c[2 * n + 1:]
+        al, be, ga = LIT_LOWSTORAGE[sc]; n = len(be)
         y = u.copy(); h = np.zeros(d)
         for k in range(n):
             h = Fx(y) + be[k] * h; y = y + ga[k] * dt * h
         ref = y
     else:
-        c = _coefs(ctx, 5); s = 4
-        a_ex = [c[0:1], c[1:3], c[3:6]]; b_ex = c[15:19]
+        a_ex, a_im, b_ex, b_im = LITERATURE[2][1]; s = 4
         f = [Fx(u)]
         for i in range(1, s):
             f.append(Fx(u + dt * sum(a_ex[i - 1][j] * f[j] for j in range(i))))
@@ -452,14 +605,13 @@ def r_reduction(ctx, a):
     if sc == 0: ref = np.linalg.solve(I - dt * B, u)
     elif sc == 2: ref = np.linalg.solve(I - 0.5 * dt * B, (I + 0.5 * dt * B) @ u)
     elif sc in (3, 4):
-        c = _coefs(ctx, sc); n = (len(c) - 1) // 3; al = c[:n + 1]
+        al, be, ga = LIT_LOWSTORAGE[sc]; n = len(be)
         y = u.copy()
         for k in range(n):
             mu = 0.5 * dt * (al[k + 1] - al[k]); y = np.linalg.solve(I - mu * B, (I + mu * B) @ y)
         ref = y
     else:
-        c = _coefs(ctx, 5); s = 4
-        a_im = [c[6:8], c[8:11], c[11:15]]; b_im = c[19:23]
+        a_ex, a_im, b_ex, b_im = LITERATURE[2][1]; s = 4
         g = [B @ u]
         for i in range(1, s):
             Y = np.linalg.solve(I - dt * a_im[i - 1][i] * B, u + dt * sum(a_im[i - 1][j] * g[j] for j in range(i)))
@@ -496,6 +648,160 @@ def r_ls_vs_ark(ctx, a):
     ctx.corr('model ark_step on lowstorage_to_butcher vs implementation low-storage step', o1, m, scale=b1.scale())
 
 
-RUNNERS = {'translator': r_translator, 'step': r_step, 'ls_generic': r_ls_generic, 'imex_generic': r_imex_generic,
+def _funcs(A, B, p):
+    """F, G, G_inv acting on (..., d) arrays (row-wise), float64, exact small data."""
+    A = np.asarray(A, dtype=np.float64); B = np.asarray(B, dtype=np.float64); p = np.asarray(p, dtype=np.float64); d = len(p)
+    Fx = lambda u: np.asarray(u, dtype=np.float64) @ A.T + p * np.asarray(u, dtype=np.float64) * np.roll(np.asarray(u, dtype=np.float64), -1, axis=-1)
+    G = lambda u: np.asarray(u, dtype=np.float64) @ B.T
+    Gi = lambda x, eta: np.linalg.solve(np.eye(d) - float(eta) * B, np.asarray(x, dtype=np.float64).T).T
+    return Fx, G, Gi
+
+
+def _factory(sc, eq, dt, alpha=None, extra=None):
+    ti = TI()
+    if sc == 6:
+        return ti.low_storage_runge_kutta_crank_nicolson(extra['alphas'], extra['betas'], extra['gammas'], eq, dt)
+    if sc == 7:
+        return ti.imex_runge_kutta(ti.ImExButcherTableau(extra['a_ex'], extra['a_im'], extra['b_ex'], extra['b_im']), eq, dt)
+    if sc == 1:
+        return ti.semi_implicit_leapfrog(eq, dt) if alpha is None else ti.semi_implicit_leapfrog(eq, dt, alpha=alpha)
+    return [ti.backward_forward_euler, None, ti.crank_nicolson_rk2, ti.crank_nicolson_rk3, ti.crank_nicolson_rk4, ti.imex_rk_sil3][sc](eq, dt)
+
+
+def _form_scale(A, B, p, dt, u):
+    b = Bench(A, B, p, dt); b.see(u); b.m = max(b.m, 1.0)
+    return b.scale() * 8
+
+
+def r_forms(ctx, a):
+    """The same step in another FORM of state / step size / equation object."""
+    ti = TI(); form = a['form']; sc = a['scheme']; d = a['d']; dt = a['dt']
+    Fx, G, Gi = _funcs(a['A'], a['B'], a['p'])
+    wrapF, wrapG, wrapGi = Fx, G, Gi
+    to_state = lambda v: np.asarray(v, dtype=np.float64); from_state = lambda s_: np.asarray(s_, dtype=np.float64).ravel()
+    dt_impl = dt; dt_model = dt
+    if form == 'int_state':
+        to_state = lambda v: np.asarray(v).astype(np.int64)
+    elif form == 'scalar_state':
+        to_state = lambda v: float(v[0]); from_state = lambda s_: np.asarray([float(s_)])
+        wrapF = lambda x: float(Fx(np.asarray([x]))[0]); wrapG = lambda x: float(G(np.asarray([x]))[0])
+        wrapGi = lambda x, eta: float(Gi(np.asarray([x]), eta)[0])
+    elif form == 'zero_d_state':
+        to_state = lambda v: np.asarray(v[0], dtype=np.float64)
+        wrapF = lambda x: Fx(np.asarray(x).reshape(1)).reshape(()); wrapG = lambda x: G(np.asarray(x).reshape(1)).reshape(())
+        wrapGi = lambda x, eta: Gi(np.asarray(x).reshape(1), eta).reshape(())
+    elif form == 'readonly_strided':
+        def to_state(v):
+            big = np.full(2 * len(v), 7.0); big[::2] = v; view = big[::2]; view.flags.writeable = False; return view
+    elif form == 'pytree':
+        k = 1
+        to_state = lambda v: {'x': np.asarray(v[:k], dtype=np.float64), 'y': (np.asarray(v[k:], dtype=np.float64),)}
+        from_state = lambda s_: np.concatenate([np.asarray(s_['x']).ravel(), np.asarray(s_['y'][0]).ravel()])
+        wrapF = lambda s_: to_state(Fx(from_state(s_))); wrapG = lambda s_: to_state(G(from_state(s_)))
+        wrapGi = lambda s_, eta: to_state(Gi(from_state(s_), eta))
+    elif form == 'np_dt': dt_impl = np.float64(dt)
+    elif form == 'int_dt': dt_impl = int(dt)
+    elif form == 'zero_d_dt': dt_impl = np.asarray(dt, dtype=np.float64)
+    elif form == 'jnp_dt':
+        import jax.numpy as jnp
+        dt_impl = jnp.asarray(dt, dtype=jnp.float64)
+    eq = ti.ImplicitExplicitODE.from_functions(wrapF, wrapG, wrapGi)
+    if form == 'subclass':
+        class Eq(ti.ImplicitExplicitODE):
+            def explicit_terms(self, x): return Fx(x)
+            def implicit_terms(self, x): return G(x)
+            def implicit_inverse(self, x, step_size): return Gi(x, step_size)
+        eq = Eq()
+    elif form == 'compose':
+        A = np.asarray(a['A'], dtype=np.float64); pp = np.asarray(a['p'], dtype=np.float64)
+        lin = ti.ImplicitExplicitODE.from_functions(lambda x: np.asarray(x) @ A.T, G, Gi)
+        nl = ti.ExplicitODE.from_functions(lambda x: pp * np.asarray(x) * np.roll(np.asarray(x), -1, axis=-1))
+        eq = ti.compose_equations([nl, lin] if sc % 2 else [lin, nl])
+    elif form == 'time_reversed':
+        eq = ti.TimeReversedImExODE(eq); dt_model = -dt        # reversed equation = forward equation with -dt
+    step = _factory(sc, eq, dt_impl, a.get('alpha'))
+    us = a['us']
+    if form == 'batch':          # leading batch axis with different content per row
+        U = np.asarray(us, dtype=np.float64)
+        if sc == 1:
+            cur, fut = step((U[:, :d], U[:, d:])); out = np.concatenate([np.asarray(cur), np.asarray(fut)], axis=1)
+        else:
+            out = np.asarray(step(U))
+        outs = [out[i] for i in range(len(us))]
+    else:
+        outs = []
+        for v in us:
+            if sc == 1:
+                cur, fut = step((to_state(v[:d]), to_state(v[d:]))); outs.append(np.concatenate([from_state(cur), from_state(fut)]))
+            else:
+                outs.append(from_state(step(to_state(v))))
+    for v, out in zip(us, outs):
+        m = model_step(ctx, sc, {'d': d, 'A': a['A'], 'B': a['B'], 'p': a['p'], 'u': v, 'dt': dt_model, 'alpha': a.get('alpha')})
+        ctx.corr('one step of %s, form %s' % (SCHEMES[sc], form), out, m, scale=_form_scale(a['A'], a['B'], a['p'], dt, v))
+    if form == 'rest_state':
+        ctx.oracle('a state at rest stays at rest (%s)' % SCHEMES[sc], bool(np.all(outs[0] == 0.0)), {'out': outs[0]})
+    if form == 'zero_dt':
+        want = np.asarray(us[0]) if sc != 1 else np.concatenate([us[0][d:], us[0][:d]])
+        ctx.oracle_close('zero step size leaves the state unchanged (%s)' % SCHEMES[sc], outs[0], want, scale=1.0)
+
+
+def r_purity(ctx, a):
+    """Step functions are pure: repeated / interleaved calls and a second step
+    function built from the same equation do not influence each other."""
+    sc = a['scheme']; b = Bench(a['A'], a['B'], a['p'], a['dt']); eq = b.eq()
+    mk = lambda v: (np.asarray(v), np.asarray(a['v'])) if sc == 1 else np.asarray(v)
+    flat = lambda o: np.concatenate([np.asarray(x).ravel() for x in o]) if sc == 1 else np.asarray(o)
+    ex = a.get('extra')
+    _f = lambda dt_: _factory(sc, eq, dt_, extra=ex)
+    s1 = _f(a['dt']); s2 = _f(a['dt2'])
+    o1 = flat(s1(mk(a['u']))); s1(mk(a['v'])); p2 = flat(s2(mk(a['u']))); o3 = flat(s1(mk(a['u'])))
+    s2b = _f(a['dt2']); s1b = _f(a['dt'])       # built in the other order
+    q2 = flat(s2b(mk(a['u']))); q1 = flat(s1b(mk(a['u'])))
+    nm = SCHEMES.get(sc, {6: 'low_storage (generic lists, beta[0] != 0)', 7: 'imex_runge_kutta (generic tableau)'}.get(sc))
+    ctx.exact('repeated call is bit-identical (%s)' % nm, o1.tolist(), o3.tolist())
+    ctx.exact('order of construction irrelevant (%s)' % nm, [o1.tolist(), p2.tolist()], [q1.tolist(), q2.tolist()])
+    u = a['u'] + a['v'] if sc == 1 else a['u']
+    arg = {'d': 2, 'A': a['A'], 'B': a['B'], 'p': a['p'], 'u': u, 'dt': a['dt']}
+    if sc == 6: m = model_step(ctx, 6, arg, extra_arrs=[ex['alphas'], ex['betas'], ex['gammas']])
+    elif sc == 7: m = model_step(ctx, 7, arg, extra_ints=[len(ex['b_ex'])], extra_arrs=[flatten(ex['a_ex']), flatten(ex['a_im']), ex['b_ex'], ex['b_im']])
+    else: m = model_step(ctx, sc, arg)
+    ctx.corr('third call vs model (%s)' % nm, o3, m, scale=b.scale())
+
+
+_jit_cache = {}
+def r_jit(ctx, a):
+    """Usual mode of use: jnp equation, step function under jax.jit."""
+    import jax, jax.numpy as jnp
+    ti = TI(); sc = a['scheme']
+    A = jnp.asarray(a['A']); B = jnp.asarray(a['B']); p = jnp.asarray(a['p'])
+    eq = ti.ImplicitExplicitODE.from_functions(
+        lambda u: A @ u + p * u * jnp.roll(u, -1), lambda u: B @ u,
+        lambda x, eta: jnp.linalg.solve(jnp.eye(2) - eta * B, x))
+    step = jax.jit(_factory(sc, eq, a['dt']))
+    u = (jnp.asarray(a['u']), jnp.asarray(a['u'][::-1])) if sc == 1 else jnp.asarray(a['u'])
+    o = step(u)
+    out = np.concatenate([np.asarray(o[0]), np.asarray(o[1])]) if sc == 1 else np.asarray(o)
+    uu = a['u'] + a['u'][::-1] if sc == 1 else a['u']
+    b = Bench(a['A'], a['B'], a['p'], a['dt']); b.see(uu); b.m = max(b.m, 1.0)
+    m = model_step(ctx, sc, {'d': 2, 'A': a['A'], 'B': a['B'], 'p': a['p'], 'u': uu, 'dt': a['dt']})
+    ctx.corr('jitted step of %s' % SCHEMES[sc], out, m, scale=b.scale() * 8)
+    ctx.exact('jitted step keeps float64', [str(out.dtype)], ['float64'])
+
+
+def r_direct_vs_tableau(ctx, a):
+    """The directly coded schemes equal imex_runge_kutta on their Butcher forms taken
+    from the literature (implementation against implementation; theorem
+    C06_direct_schemes_are_ark / the SIL3 reference of Whitaker & Kar)."""
+    ti = TI(); name = a['name']; dt = a['dt']
+    tab = dict(LITERATURE)[name]
+    b1 = Bench(a['A'], a['B'], a['p'], dt); b2 = Bench(a['A'], a['B'], a['p'], dt)
+    f = {'euler': ti.backward_forward_euler, 'cn_rk2': ti.crank_nicolson_rk2, 'sil3': ti.imex_rk_sil3}[name]
+    o1 = np.asarray(f(b1.eq(), dt)(np.asarray(a['u'])))
+    o2 = impl_step(7, b2, dt, a['u'], extra={'a_ex': tab[0], 'a_im': tab[1], 'b_ex': tab[2], 'b_im': tab[3]})
+    ctx.oracle_close('%s = imex_runge_kutta on its published Butcher tableau' % name, o1, o2, scale=max(b1.scale(), b2.scale()))
+
+
+RUNNERS = {'forms': r_forms, 'purity': r_purity, 'jit': r_jit, 'direct_vs_tableau': r_direct_vs_tableau,
+           'translator': r_translator, 'step': r_step, 'ls_generic': r_ls_generic, 'imex_generic': r_imex_generic,
            'ls_lengths': r_ls_lengths, 'tableau_shape': r_tableau_shape, 'stability': r_stability,
            'order': r_order, 'reduction': r_reduction, 'ls_vs_ark': r_ls_vs_ark}
